@@ -40,6 +40,8 @@ def classify(c):
         return "ok"
     if v.startswith("invalid panic/") or v.startswith("invalid err/"):
         return "violation"
+    if v.startswith("invalid shape/") or v.startswith("invalid changed/"):
+        return "violation"          # the first clause of the property (only nops, nothing else changes) fails on f itself
     if v.startswith("invalid ") and "; diverge " in v:
         return "violation"
     if v.startswith("invalid ") and "x=diff" in c.impl:
